@@ -191,3 +191,25 @@ def run(ctx):
                       {"trace_tail": [(a, s) for a, s in t.trace[-12:]]})
     elif not t.error:
         ctx.inconclusive("trace validation ended abnormally (log %s)" % t.log_path)
+
+    # 5. (thorough) the binding binds: a trace with one marker removed and one with one observed field
+    #    changed must be rejected by StoreTrace.tla
+    if not ctx.quick and t.ok:
+        lines = open(trace_path).read().splitlines()[:4000]
+        idx_link = next((i for i, l in enumerate(lines) if '"ev":"fs.link"' in l), None)
+        idx_hdr = next((i for i, l in enumerate(lines) if '"ev":"ods.hdr"' in l), None)
+        rejected = 0
+        for name, mut in (("marker-removed", lambda ls: ls[:idx_link] + ls[idx_link + 1:]),
+                          ("field-changed", lambda ls: ls[:idx_hdr] + [ls[idx_hdr].replace('"hdr"', '"full"', 1)] + ls[idx_hdr + 1:])):
+            if idx_link is None or idx_hdr is None:
+                break
+            p = os.path.join(ctx.work, "trace_selftest_%s.ndjson" % name)
+            open(p, "w").write("\n".join(mut(lines)) + "\n")
+            os.environ["VERIF_TRACE"] = p
+            st = ctx.tlc("store/StoreTrace.tla", "store/StoreTrace.cfg", workers=1, deadlock=False, timeout=900,
+                         must_pass=False, count=False)
+            if st.violated == "postcondition":
+                rejected += 1
+            else:
+                ctx.inconclusive("selftest: corrupted trace (%s) was not rejected by StoreTrace.tla" % name)
+        ctx.cover(trace_selftests_rejected=rejected)
